@@ -112,6 +112,11 @@ fn case_strategy() -> impl Strategy<Value = Case> {
 }
 
 fn run(e: &Engine) {
+    // size boundaries: 2^16 +- 1 data elements in one response unit, blocks of 10^k +- 1 bytes, blocks ending in NL
+    if !cfg!(debug_assertions) {
+        let cases: Vec<Case> = crate::fixtree::size_boundary_plans().into_iter().map(|plans| Case { msg: crate::fixtree::query_message(1), plans }).collect();
+        e.fixed("size-boundary-responses", cases, check);
+    }
     e.proptest("response-framing", e.tier.pick(300_000, 10_000_000), case_strategy, check);
     e.require_fraction("two or more queries", "ending: NL", 1.0);
     for l in ["ending: ;", "ending: ; NL", "ending: ; white space", "message without queries"] {
